@@ -18,7 +18,7 @@ func RequireLineTaxCategory(key cbc.Code) validation.Rule {
 
 func (v *lineValidation) Validate(value any) error {
 	line, ok := value.(*Line)
-	if !ok {
+	if !ok || line == nil {
 		return nil
 	}
 	if v.taxKey == cbc.CodeEmpty {
